@@ -47,6 +47,19 @@ add('C12', 'exploration',
     'Every text of length <= 5 (quick) / <= 7 (thorough) over {a, ", comma, LF, CR, #, space} is delivered through a harness stream in every partition and chunk size, for every policy x comment prefix x header flag; every delivery must equal the whole-string delivery, which must equal an independent reference line-breaker + splitter. Byte-level partitions of multi-byte UTF-8 / latin-1 samples through TextIOWrapper; random long texts with random cuts. Exhaustive only for the enumerated bounded domain.',
     TRUST, 'exhaustive schedule enumeration (all partitions / chunk sizes) + property-based testing, schedule-invariance + reference reader', 'DESIGN.md §2 C12')
 
+add('C10', 'exploration',
+    'Every one-/two-field record over {quote, delimiter characters, space, a (+LF for rfc)} up to length 4/5 for 9 delimiters and the quoted policies, plus random tables over the full alphabet of the quantifier x 5 policies x 12 delimiters x 3 line separators x 3 encodings and query_csv file to file: real writer -> real reader must return the table without warnings whenever the independent reference writer/reader pair can represent it, with cross-checks real writer -> reference reader and reference writer -> real reader; lossy simple/whitespace/None output must warn.',
+    TRUST, 'exhaustive enumeration of a bounded domain + property-based testing (Hypothesis): round-trip and cross round-trip against a reference dialect', 'DESIGN.md §2 C10')
+add('C17', 'exploration',
+    'All pattern/text pairs over the 14-symbol alphabet up to |p|<=3,|t|<=2 (quick) / <=3 (thorough) and the reduced alphabets up to length 5 (thorough) are evaluated through `select like(a1,a2)` (query_table, batches that fill the regex cache) and like_to_regex, plus rbql-js for the shorter pairs, and compared with a dynamic-programming LIKE matcher; random longer Unicode pairs by Hypothesis. The full <=5 x <=5 space over the 14-symbol alphabet is sampled, not enumerated.',
+    TRUST, 'exhaustive enumeration of a bounded domain + property-based testing, reference matcher (DP)', 'DESIGN.md §2 C17')
+add('C18', 'exploration',
+    'Differential Python <-> rbql-js on identical cases: exhaustive lines (splitting, both preserve modes), exhaustive short strings (quoting), exhaustive short files x policies x comment prefix x header x encodings (readers, stream and bulk), random tables written by both writers (bytes compared, cross read) and language-neutral select lists incl. hostile column names (headers, parsing-error class).',
+    TRUST + ' node v20 on PATH; js/driver.js requires <repo>/rbql-js by absolute path.', 'exhaustive enumeration + property-based testing, differential between the two implementations', 'DESIGN.md §2 C18')
+add('C20', 'exploration',
+    'Every input of <= 5 (quick) / <= 6 (thorough) bytes over {a, ", comma, LF, CR, #} in every byte partition (separate Buffers from a Readable) x 3 policies x comment prefix x 2 encodings, all partitions of multi-byte UTF-8 samples incl. BOM / invalid / truncated sequences, and 64 KiB-straddling real files through fs.createReadStream and bulk mode: every delivery == single-chunk delivery == reference reader; invalid UTF-8 rejected in every partition.',
+    TRUST + ' node v20 on PATH.', 'exhaustive schedule enumeration (all byte partitions) through a node driver, schedule-invariance + reference reader', 'DESIGN.md §2 C20')
+
 NOT_APPLICABLE = []
 ALL = ['C%02d' % i for i in range(1, 21)]
 PENDING_REASON = 'check not built yet in this revision of /verif (planned, see DESIGN.md); not claimed until it exists and is quiet on the unchanged tree'
